@@ -78,6 +78,10 @@ def scenarios(tier):
         for layout, demux, n2 in (("single", "name", 0), ("paired", "name", 2), ("paired", "combinatorial", 2)):
             for final in (None, "discard_untrimmed"):
                 S.append(dict(layout=layout, demux=demux, n1=2, n2=n2, times=1, final=final, keys=[], cores=1, side=side))
+    # {name} more than once in the output path
+    for layout, n2 in (("single", 0), ("paired", 2)):
+        for final in (None, "discard_untrimmed"):
+            S.append(dict(layout=layout, demux="name", n1=3, n2=n2, times=1, final=final, keys=[], cores=1, name_twice=True))
     multi = []
     for sc in S:
         if sc["times"] == 2 and not sc["keys"] and (sc["n1"], sc["n2"]) in ((2, 0), (3, 2), (2, 3), (2, 2)):
@@ -97,6 +101,8 @@ def opts_of(sc):
     outs = dict(demux=sc["demux"], untrimmed_output=sc["final"] == "untrimmed_output", too_short_output=False)
     if sc.get("side"):
         outs[sc["side"]] = True
+    if sc.get("name_twice"):
+        outs["name_twice"] = True
     return o, outs
 
 
